@@ -508,37 +508,23 @@ impl<'a> From<Piece<'a>> for Chunk {
                     }
 
                     let key = match formatter.args.first() {
-                        Some(arg) => {
-                            if let Some(arg) = arg.first() {
-                                match arg {
-                                    Piece::Text(key) => key.to_owned(),
-                                    Piece::Error(ref e) => return Chunk::Error(e.clone()),
-                                    _ => return Chunk::Error("invalid MDC key".to_owned()),
-                                }
-                            } else {
-                                return Chunk::Error("invalid MDC key".to_owned());
-                            }
-                        }
+                        Some(arg) => match plain_text(arg, "invalid MDC key") {
+                            Ok(key) => key,
+                            Err(e) => return Chunk::Error(e),
+                        },
                         None => return Chunk::Error("missing MDC key".to_owned()),
                     };
 
                     let default = match formatter.args.get(1) {
-                        Some(arg) => {
-                            if let Some(arg) = arg.first() {
-                                match arg {
-                                    Piece::Text(key) => key.to_owned(),
-                                    Piece::Error(ref e) => return Chunk::Error(e.clone()),
-                                    _ => return Chunk::Error("invalid MDC default".to_owned()),
-                                }
-                            } else {
-                                return Chunk::Error("invalid MDC default".to_owned());
-                            }
-                        }
-                        None => "",
+                        Some(arg) => match plain_text(arg, "invalid MDC default") {
+                            Ok(default) => default,
+                            Err(e) => return Chunk::Error(e),
+                        },
+                        None => String::new(),
                     };
 
                     Chunk::Formatted {
-                        chunk: FormattedChunk::Mdc(key.into(), default.into()),
+                        chunk: FormattedChunk::Mdc(key, default),
                         params: parameters,
                     }
                 }
@@ -564,6 +550,23 @@ impl<'a> From<Piece<'a>> for Chunk {
             Piece::Error(err) => Chunk::Error(err),
         }
     }
+}
+
+/// The text of an argument that must be plain (escaped specials included): all of its text
+/// pieces joined; an empty argument, a nested formatter or a syntax error is an error.
+fn plain_text(arg: &[Piece], invalid: &str) -> Result<String, String> {
+    if arg.is_empty() {
+        return Err(invalid.to_owned());
+    }
+    let mut text = String::new();
+    for piece in arg {
+        match piece {
+            Piece::Text(t) => text.push_str(t),
+            Piece::Error(e) => return Err(e.clone()),
+            Piece::Argument { .. } => return Err(invalid.to_owned()),
+        }
+    }
+    Ok(text)
 }
 
 fn no_args(arg: &[Vec<Piece>], params: Parameters, chunk: FormattedChunk) -> Chunk {
